@@ -206,6 +206,130 @@ def rule_r2(chk, c):
                                 n.where())
 
 
+def data_deps(B, op, seen=None):
+    """backward data slice of an operand: set of tags 'load:<field>' (atomic loads of self.<field>) and
+    'field:<name>' (plain reads of self.<name>)"""
+    out = set()
+    seen = seen if seen is not None else set()
+    if op[0] == "k":
+        return out
+    local, proj = op[1]
+    for pr in proj:
+        if pr.startswith(".") and local == 1:
+            out.add("field:" + pr[1:])
+    if local in seen:
+        return out
+    seen.add(local)
+    for blk in B.blocks:
+        for st in blk["s"]:
+            if st[0] == "a" and st[1][0] == local:
+                rv = st[2]
+                ops = []
+                if rv[0] in ("use", "repeat"):
+                    ops = [rv[1]]
+                elif rv[0] == "cast":
+                    ops = [rv[2]]
+                elif rv[0] == "bin":
+                    ops = [rv[2], rv[3]]
+                elif rv[0] == "un":
+                    ops = [rv[2]]
+                elif rv[0] == "agg":
+                    ops = rv[2]
+                elif rv[0] in ("ref",):
+                    ops = [["c", rv[2]]]
+                elif rv[0] in ("discr", "rawptr"):
+                    ops = [["c", rv[1]]]
+                for o in ops:
+                    out |= data_deps(B, o, seen)
+        t = blk["t"]
+        if t[0] == "call" and t[1]["d"][0] == local:
+            fn = cfg.callee_of(t[1]["f"])
+            name = cfg.callee_name(fn) or ""
+            if name.startswith("core::sync::atomic::Atomic") and last(name) == "load" and t[1]["a"]:
+                o = cfg.origin(B, t[1]["a"][0])
+                pj = o[-1] if isinstance(o[-1], list) else []
+                flds = [x[1:] for x in pj if x.startswith(".")]
+                if flds:
+                    out.add("load:" + flds[-1])
+                    continue
+            for a in t[1]["a"]:
+                out |= data_deps(B, a, seen)
+    return out
+
+
+def controlling_deps(B, target, under=None):
+    """union of the data dependences of every switch the block `target` is control-dependent on
+    (optionally only switches dominated by block `under`)"""
+    deps = set()
+    ctrl = []
+    for sb in range(B.n):
+        t = B.blocks[sb]["t"]
+        if t[0] != "switch" or sb == target or not B.dominates(sb, target):
+            continue
+        if under is not None and not B.dominates(under, sb):
+            continue
+        succs = B.succ[sb]
+        reach = [target == x or target in B.reachable(x, avoid={sb}) for x in succs]
+        if any(reach) and not all(reach):
+            ctrl.append(sb)
+            deps |= data_deps(B, t[1])
+    return deps, ctrl
+
+
+def rule_r5(chk, c):
+    r = chk.rule("C12.R5", "the decisions of the termination protocol depend on the values they must depend on: "
+                           "terminating (true) on both counters, resuming (false) on `awakening`, handing out a "
+                           "wake-up token on working, awakening and total — all read under the lock (the invariant "
+                           "the code asserts is working + awakening <= total)")
+    tt = c.mir.get(TERM + "::try_terminate")
+    if r.anchor(TERM + "::try_terminate", tt):
+        B = cfg.Body(tt)
+        lk = [x for x in B.calls if x.name == LOCK]
+        under = lk[0].block if lk else None
+        for t in const_true_blocks(B, True):
+            if under is None or not B.dominates(under, t):
+                continue     # the single-worker shortcut before the lock
+            deps, ctrl = controlling_deps(B, t, under)
+            r.instance("try_terminate:true@bb%d" % t, sample={"deps": sorted(deps)})
+            if not {"load:working", "load:awakening"} <= deps:
+                r.violation(TERM + "::try_terminate:true-exit-ignores-a-counter",
+                            "a `return true` is decided without both `working` and `awakening` (deps: %s): a worker "
+                            "can terminate while another is about to resume with published work" % sorted(deps),
+                            "%s (bb%d)" % (B.file, t))
+        for f in const_true_blocks(B, False):
+            deps, ctrl = controlling_deps(B, f, under)
+            r.instance("try_terminate:false@bb%d" % f, sample={"deps": sorted(deps)})
+            if "load:awakening" not in deps:
+                r.violation(TERM + "::try_terminate:false-exit-ignores-awakening",
+                            "resuming work is decided without reading `awakening` (the wake-up tokens)",
+                            "%s (bb%d)" % (B.file, f))
+    wu = c.mir.get(TERM + "::wake_up")
+    if r.anchor(TERM + "::wake_up", wu):
+        B = cfg.Body(wu)
+        lk = [x for x in B.calls if x.name == LOCK]
+        sta = counter_calls(B, "awakening", {"store", "fetch_add", "swap"})
+        if r.anchor("wake_up: lock", lk) and r.anchor("wake_up: awakening store", sta):
+            for s in sta:
+                deps, ctrl = controlling_deps(B, s.block, lk[0].block)
+                r.instance("wake_up:token-guard", sample={"deps": sorted(deps), "switches": ctrl})
+                need = {"load:working", "load:awakening", "field:total"}
+                if not need <= deps:
+                    r.violation(TERM + "::wake_up:token-guard-ignores-%s" % "+".join(
+                        sorted(x.split(":")[1] for x in need - deps)),
+                                "under the lock, a wake-up token (awakening += 1) is handed out without consulting %s: "
+                                "a token can be issued when no un-notified sleeper exists (working + awakening == "
+                                "total); nobody consumes it, `awakening` never returns to 0 and every worker sleeps "
+                                "forever in try_terminate" % sorted(need - deps), s.where())
+            # the loads feeding the guard are the ones taken under the lock
+            for fld in ("working", "awakening"):
+                lds = counter_calls(B, fld, {"load"})
+                r.instance("wake_up:%s re-read under lock" % fld)
+                if not any(B.dominates(lk[0].block, l.block) for l in lds):
+                    r.violation(TERM + "::wake_up:%s-not-re-read-under-lock" % fld,
+                                "the lock-free fast-path value of `%s` is reused under the lock (stale)" % fld,
+                                lk[0].where())
+
+
 def rule_r3(chk, c):
     r = chk.rule("C12.R3", "both parallel tasks offer to terminate only when pop() returned None; true leaves the "
                            "work loop, false re-enters it")
@@ -352,6 +476,7 @@ def run(chk, F):
     rule_r2(chk, c)
     rule_r3(chk, c)
     rule_r4(chk, F, c)
+    rule_r5(chk, c)
     chk.assumptions += [
         "decides the locking/ordering discipline the termination detector relies on, not absence of early/late "
         "termination over all interleavings",
